@@ -7,13 +7,67 @@ import Dashu.Model.Ratio.PowGuard
     qp.pow q:<num>/<den>:<R|X> d:<n> -> `pow(n)` as stored, or `panic AllocTooMuch` (round 6; `powChecked`: Repr::pow with the
                                      allocation guards of IBig::pow / UBig::pow); spec: the value is `v ^ n`, a panic only
                                      when the exact result has at least 2^62 bits
+    qp.prog <regs…> ; <steps…>       -> as `prog` (Driver/Ratio.lean) but run with `runG`: a `pow` step carries the allocation guards;
+                                     spec: `checkRunG` = `checkRun`, and a stop `panic:AllocTooMuch` is accepted only at a `pow`
+                                     step whose exact result has a component of at least 2^62 bits
   Beside the model's answers the specification is evaluated on the value in `Rat`
   (`is_zero ⇔ v = 0`, `is_one ⇔ v = 1`, `is_int ⇔ v.den = 1`, negative ⇔ `v < 0`).
 -/
 namespace Dashu.Driver.RatioPred
 open Dashu.IO Dashu.Model Dashu.Model.Ratio Dashu.Driver Dashu.Driver.Ratio
 
+/-- `checkRun` (Driver/Ratio.lean) for guarded runs: the allocation panic is accepted only at a `pow` step on a register
+    whose exact power has a component of at least 2^62 bits -/
+def checkRunG (final : List Reg) (stop : Stop) : List Op → Nat → Bool
+  | [], n => final.length == n && (match stop with | .done => true | _ => false)
+  | op :: rest, n =>
+    let vals := (final.take n).map Reg.val
+    let allocStop : Bool := final.length == n && (match stop, op with
+      | .panic k, .pow i e =>
+        k == .allocTooMuch && (match final[i]? with
+          | some a => decide (2 ^ 62 ≤ e * a.q.num.natAbs.log2) || decide (2 ^ 62 ≤ e * a.q.den.log2)
+          | none => false)
+      | _, _ => false)
+    if allocStop then true
+    else match Spec.step vals op with
+    | some v =>
+      match final[n]? with
+      | some r => regOk r v && checkRunG final stop rest (n + 1)
+      | none => false
+    | none =>
+      final.length == n && (match stop with | .panic k => k = .divideByZero | _ => false)
+
+def progG (W : Nat) (args : List String) : Option String := do
+  let inits := args.takeWhile (· ≠ ";")
+  let rest := args.dropWhile (· ≠ ";")
+  if rest.isEmpty then none
+  let steps ← (rest.drop 1).mapM parseStep
+  let parts ← inits.mapM parseParts
+  let rec build : List (Int × Nat × Kind) → List Reg → List Reg × Option PanicKind
+    | [], acc => (acc, none)
+    | p :: ps, acc => match mkReg p with
+      | .ok r => build ps (acc ++ [r])
+      | .error k => (acc, some k)
+  let (env0, pk) := build parts []
+  match pk with
+  | some k => some (ok (" ".intercalate (env0.map (showQ ·.q) ++ ["panic:" ++ k.name])))
+  | none =>
+    let initOk := (List.zip env0 parts).all fun (r, p) =>
+      p.2.1 != 0 && regOk r ((p.1 : Rat) / (p.2.1 : Rat))
+    let (final, stop) := runG W steps env0
+    let toks := final.map (showQ ·.q)
+    match stop with
+    | .bad => none
+    | .done | .panic _ =>
+      let toks := match stop with
+        | .panic k => toks ++ ["panic:" ++ k.name]
+        | _ => toks
+      let s := ok (" ".intercalate toks)
+      if initOk && checkRunG final stop steps env0.length then some s
+      else some (mismatch s "program-values")
+
 def dispatch : Dispatch := fun _W op args =>
+  if op = "qp.prog" then progG _W args else
   match op, args with
   | "qp.preds", [a] => do
     let p ← parseParts a
